@@ -402,6 +402,11 @@ def main():
     L.append(",\n".join(f"  ({lean_str(a)}, {lean_str(b)}, {lean_str(c)})" for a, b, c in labels))
     L.append("]")
     L.append("")
+    L.append("/-- the distinct transcript / derivation labels of the crate, sorted -/")
+    L.append("def rustLabelSet : List (List UInt8) := [")
+    L.append(",\n".join("  " + lean_str(x) for x in sorted({c for _, _, c in labels})))
+    L.append("]")
+    L.append("")
     # secrets
     L.append("/-- secret-bearing types: (name, zeroize-on-drop, derives Debug, manual Debug prints only these expressions) -/")
     L.append("def rustSecrets : List (List UInt8 × Bool × Bool × List (List UInt8)) := [")
